@@ -13,7 +13,8 @@ import props
 REPO = os.environ.get('VERIF_REPO', '/repo')
 CLANG = 'clang++-14'
 IRFLAGS = ['-O1', '-fno-vectorize', '-fno-slp-vectorize', '-fno-unroll-loops', '-fno-rtti', '-D_GLIBCXX_TSAN=1', '-DEVENTPP_VERIF',
-           '-I' + REPO + '/include', '-S', '-emit-llvm', '-Wno-everything']
+           '-I' + REPO + '/include', '-S', '-emit-llvm', '-Wno-everything',
+           '-Xclang', '-mno-constructor-aliases']      # (explicit instantiations, e.g. of basic_string<char>, would otherwise emit IR aliases)
 
 
 LINECOV = bool(os.environ.get('VERIF_LINECOV'))
